@@ -181,8 +181,9 @@ func c19ConnectToCLI(idx int, rng *rand.Rand) []Case {
 	ttl := []string{"", "-1", "0", "30s"}[rng.Intn(4)]
 	out := filepath.Join(scratchDir(), fmt.Sprintf("c19ct%d.bin", idx))
 	defer os.Remove(out)
+	host := []string{"mapped.invalid", "Mapped.Invalid", "MAPPED.invalid"}[rng.Intn(3)] // spelled the same way in the flag and in the target
 	fl := [][]string{{"-rate", "40"}, {"-duration", "400ms"}, {"-output", out}, {"-timeout", "5s"},
-		{fmt.Sprintf("-keepalive=%v", keepalive)}, {"-connect-to", "mapped.invalid:80:" + repl}}
+		{fmt.Sprintf("-keepalive=%v", keepalive)}, {"-connect-to", host + ":80:" + repl}}
 	if ttl != "" {
 		fl = append(fl, []string{"-dns-ttl=" + ttl})
 	}
@@ -192,7 +193,7 @@ func c19ConnectToCLI(idx int, rng *rand.Rand) []Case {
 		args = append(args, f...)
 	}
 	cmd := exec.Command(os.Getenv("VERIF_VEGETA"), args...)
-	cmd.Stdin = strings.NewReader("GET http://mapped.invalid/\n")
+	cmd.Stdin = strings.NewReader("GET http://" + host + "/\n")
 	runErr := cmd.Run()
 	b, _ := os.ReadFile(out)
 	rs, _ := decodeAll(vegeta.NewDecoder(bytes.NewReader(b)), 1<<20)
